@@ -220,7 +220,9 @@ func (k Keeper) SendToNewVestingAccount(ctx sdk.Context, owner string, toAddr st
 	if err == nil {
 		k.SetAccountVestingPools(ctx, accVestingPools)
 		k.AppendVestingAccountTrace(ctx, types.VestingAccountTrace{
-			Address:            toAddr,
+			// canonical spelling: traces are looked up by AccAddress.String() when the
+			// account is split or moved later, an upper-case bech32 recipient would never be found
+			Address:            toAccAddress.String(),
 			Genesis:            false,
 			FromGenesisPool:    vestingPool.GenesisPool,
 			FromGenesisAccount: false,
